@@ -89,6 +89,23 @@ class Grid:
         return m.count() if isinstance(m, Text) else len(m) - 1
 
     def tasks(self, d, target=60000):
+        base = self._tasks(d, target)
+        if self.free_count < 64:
+            return [t + (0, 1) for t in base]
+        out = []
+        for t in base:
+            sub = t[0]
+            size = 1
+            for i in sub:
+                size *= self._ndcount(i)
+            if t[1] is not None:
+                size = max(1, size // max(1, (t[3] or 64)))
+            fparts = min(self.free_count, max(1, (size * self.free_count) // target))
+            for fp in range(fparts):
+                out.append(t + (fp, fparts))
+        return out
+
+    def _tasks(self, d, target=60000):
         """-> list of (subset of slot indices, fixed choice index for first slot or None)"""
         n = len(self.slots)
         d = n if d is None else min(d, n)
@@ -135,6 +152,9 @@ class Grid:
             return
         fnames = [n for n, _ in self.free]
         combos = list(itertools.product(*[m for _, m in self.free]))
+        fp, fparts = task[4], task[5]
+        if fparts > 1:
+            combos = combos[fp::fparts]
         for c in self._cases(task):
             for combo in combos:
                 c2 = dict(c)
@@ -143,7 +163,7 @@ class Grid:
                 yield c2
 
     def _cases(self, task):
-        sub, big, p, parts = task
+        sub, big, p, parts = task[:4]
         base = self.default_case()
         if not sub:
             yield dict(base)
@@ -252,11 +272,11 @@ def _worker(task):
     return n, fails, tags, outs, sample, overflow
 
 
-def run(chk, grid, d, evaluate, extra=None):
+def run(chk, grid, d, evaluate, extra=None, target=60000):
     """Explore grid with deviation bound d; returns (failures, tags)."""
     global _CTX
     _CTX = (grid, evaluate)
-    tasks = grid.tasks(d)
+    tasks = grid.tasks(d, target)
     # replay determinism: the first shard is executed twice and must agree byte for byte
     if tasks:
         a = _worker(tasks[0])
